@@ -30,6 +30,10 @@ Q_SLICES = ["'A:1'", "(2, 2)", "('B', 1)", "1", "'B'", "(slice(None), 1)", "(sli
 SUB_SLICES = ["slice(None) || (slice(1, 2), slice(None))", "(slice(None), slice(None)) || (slice(0, 1), slice(1, 2))",
               "(slice(1, 2), slice(None)) || (slice(None), slice(0, 1))"]
 
+# a list that names a well twice (two spellings of one well): which wells it addresses is taken from the implementation's own
+# view (refusing such a list with ValueError is fine too); what is judged is that the well is emptied - and accounted for - once
+DUP_SLICES = ["['A:1', 'B:2', (1, 1)]", "[(2, 1), 'B:1']"]
+
 _G = {}
 
 
@@ -105,7 +109,15 @@ def run_case(item):
         addressed = None
     else:
         obj = mk_plate(pp, subs, mi)
-        if '||' in form:
+        if form in DUP_SLICES:
+            try:
+                target = obj[selectors.ev(form)]
+                target.remove(arg)
+            except ValueError:
+                return [], 'skip'
+            names = {w.name for w in numpy.asarray(target.get()).flatten()}
+            addressed = {(r, c) for r in range(2) for c in range(2) if obj.wells[r, c].name in names}
+        elif '||' in form:
             a, b = form.split(' || ')
             target = obj[selectors.ev(a)][selectors.ev(b)]
             names = {w.name for w in numpy.asarray(target.get()).flatten()}
@@ -219,7 +231,7 @@ def run(col):
                 "object]) and the out-flow of the object must equal the removed amounts of exactly the addressed wells. "
                 "Non-trivial = distinct (object form, via, selector, mixture size, removed-something) classes")
     vals = [col.seed % 3] if col.tier == 'quick' else [0, 1, 2]
-    forms = ['container', 'plate'] + Q_SLICES + SUB_SLICES
+    forms = ['container', 'plate'] + Q_SLICES + SUB_SLICES + DUP_SLICES
     drained = [(mi, what, 'container-drained', via) for mi in range(N_PLAIN) for what in SELECTORS for via in ('direct', 'recipe')]
     for v in vals:
         _G.update(pp=pp, vidx=v)
